@@ -126,3 +126,28 @@ def pattern_pairs(rng, patterns, pool, feats, n, slashes=('/', '\\'), deep=None)
             y = gen_cat.perturb(rng, y, feats)
         out.append((px, py, x, y))
     return out
+
+
+def short_lived_suite(ctx, apply_binary_rules, recorded, rounds):
+    """`recorded`: (text of x, text of y, encoded result) obtained on categories the check keeps alive. The same pairs
+    again on categories that exist for one call only — parsed afresh from their text, combined, released (a parser
+    builds and drops categories all the time, so addresses are reused): the result must be the recorded one"""
+    from depccg.cat import Category
+    n = 0
+    for rnd in range(rounds):
+        for tx, ty, want in recorded:
+            try:
+                x, y = Category.parse(tx), Category.parse(ty)
+            except Exception:
+                continue
+            if str(x) != tx or str(y) != ty:
+                continue
+            _, out = call_rules(apply_binary_rules, x, y)
+            n += 1
+            ctx.evaluations += 1
+            if out != want:
+                ctx.fail('rule application on freshly built categories differs from the result on the same categories built earlier',
+                         [tx, ty], fingerprint=['short-lived', tx, ty])
+                return n
+            del x, y
+    return n
